@@ -16,6 +16,7 @@ Ops == {O("setprefix", t, "", "", "", FALSE) : t \in MCTypes}
        \cup {O("setctxlang", 0, l, "", "", FALSE) : l \in Langs}
        \cup {O("setlock", t, "", "", "", b) : t \in (MCTypes \cap SafeLock) \cup {0}, b \in BOOLEAN}
        \cup {O("put", 0, "", k, Vid(nv), FALSE) : k \in Keys}
+       \cup {O("put", 0, "", k, "", FALSE) : k \in Keys}          \* the empty value is a value
        \cup {O("get", 0, "", k, "", FALSE) : k \in Keys}
 Init == g = Store0 /\ n = 0 /\ nv = 0 /\ hist = <<>> /\ last = [o |-> O("none", 0, "", "", "", FALSE), pre |-> Store0, res |-> "ok", val |-> ""]
 Next == /\ n < MaxOps
